@@ -288,6 +288,34 @@ pub fn oracle(a: &Args, out: &Args) -> Option<(&'static str, String)> {
                 }
             }
         })();
+        // a bidirectional stream carrying exactly one HEADERS frame (a session request, good or bad):
+        // at most that stream is refused, the connection and the live session are not affected
+        if kind == 1 && payload.is_none() {
+            if let Some((1, l1)) = varint(b) {
+                if let Some((len, l2)) = varint(&b[l1..]) {
+                    if l1 + l2 + len as usize == b.len() {
+                        strict += 1;
+                    }
+                }
+            }
+        }
+        // C12 / C17: a WebTransport stream naming an id that is not a client-initiated bidirectional
+        // stream is a connection error of type H3_ID_ERROR
+        {
+            let first = varint(b);
+            if let Some((t, l)) = first {
+                if t == if kind == 0 { 0x54 } else { 0x41 } {
+                    if let Some((sid, _)) = varint(&b[l..]) {
+                        if sid % 4 != 0 {
+                            let ch = &out[out.len() - 2];
+                            if *ch != vec![1, 0x108] {
+                                return Some(("C12+C17", format!("a WebTransport {} stream named the invalid session id {}; the peer saw {:?} instead of a close with H3_ID_ERROR", if kind == 0 { "uni" } else { "bidi" }, sid, ch)));
+                            }
+                        }
+                    }
+                }
+            }
+        }
         if let Some(p) = payload {
             // strictly well-formed: the type / signal value is the very first thing on the stream
             let first = varint(b).map(|x| x.0);
@@ -319,7 +347,7 @@ pub fn oracle(a: &Args, out: &Args) -> Option<(&'static str, String)> {
     // nothing but well-formed live-session streams: the connection has no reason to end
     let closed_early = out.len() >= 2 && out[out.len() - 2].first() != Some(&TAG_PENDING) && !out[out.len() - 2].is_empty();
     if strict == n && n > 0 && closed_early {
-        return Some(("C01+C07+C08", format!("the connection was closed ({:?}) although every stream the peer opened was a well-formed stream of the live session", out[out.len() - 2])));
+        return Some(("C01+C07+C08+C09+C12+C18", format!("the connection was closed ({:?}) although every stream the peer opened was a well-formed stream of the live session or a session request (which can at most be refused on its own stream)", out[out.len() - 2])));
     }
     let cnt = out[0][1] as usize;
     let mut i = 1;
@@ -331,6 +359,23 @@ pub fn oracle(a: &Args, out: &Args) -> Option<(&'static str, String)> {
         match pos {
             Some(p) => {
                 let (_, d, fin) = written.remove(p);
+                // C06: a stream the peer reset with code c ends with exactly that for the reader
+                if out[i].len() >= 2 && out[i][1] == 1 {
+                    let sent_code = (0..n).find_map(|j| {
+                        let sp = &a[1 + 2 * j];
+                        if sp[0] == kind && sp[3] == 1 { Some(sp[4]) } else { None }
+                    });
+                    if let Some(c) = sent_code {
+                        if out[i].len() < 3 || out[i][2] != c {
+                            return Some(("C06", format!("the peer reset the stream with {} but the reader got {:?}", c, &out[i][1..])));
+                        }
+                    }
+                } else if !fin && !full && out[i].len() >= 2 && out[i][1] == 3 {
+                    let was_reset = (0..n).any(|j| a[1 + 2 * j][0] == kind && a[1 + 2 * j][3] == 1);
+                    if was_reset {
+                        return Some(("C06", "the peer reset the stream but the reader got an unrelated error instead of reset(code)".into()));
+                    }
+                }
                 if fin && !full {
                     return Some(("C01", format!("the peer wrote {} bytes and finished the stream; the application read {} bytes and then {:?} instead of end-of-stream", d.len(), data.len(), &out[i][1..])));
                 }
@@ -345,7 +390,7 @@ pub fn oracle(a: &Args, out: &Args) -> Option<(&'static str, String)> {
     let closed = out.len() >= 2 && out[out.len() - 2].first() != Some(&TAG_PENDING) && !out[out.len() - 2].is_empty();
     if !closed {
         if let Some((k, d, _)) = written.first() {
-            return Some(("C08+C07+C01", format!("{} live-session stream(s) with a complete preamble never reached the application (first: {} stream, {} payload bytes)", written.len(), if *k == 0 { "uni" } else { "bidi" }, d.len())));
+            return Some(("C08+C07+C01+C09", format!("{} live-session stream(s) with a complete preamble never reached the application (first: {} stream, {} payload bytes)", written.len(), if *k == 0 { "uni" } else { "bidi" }, d.len())));
         }
     }
     None
@@ -420,6 +465,14 @@ pub fn generate(rng: &mut Rng, thorough: bool, which: &str) -> Vec<Case> {
         for code in [0u64, 77, (1 << 62) - 1] {
             cs.push(Case::new(621, vec![vec![0, 1, 0, 1, 0], spec(0, 0, 0, 1, code), b2a(&uni_wt(0, b"partial"))], "peer-reset"));
         }
+        // reset by the peer before the application accepts the stream: the first read reports it
+        for kind in 0..2u64 {
+            for code in [9u64, (1 << 40) + 1] {
+                let b = if kind == 0 { uni_wt(0, b"early") } else { bi_wt(0, b"early") };
+                let exp = if kind == 0 { (1, 0) } else { (0, 1) };
+                cs.push(Case::new(621, vec![vec![250, 1, 0, exp.0, exp.1], spec(kind, 0, 0, 1, code), b2a(&b)], "peer-reset-before-accept"));
+            }
+        }
         // GREASE frames before the WT signal on a bidi stream: the signal is then not the first frame, the endpoint answers H3_FRAME_ERROR (the model says so too)
         let mut b = raw_frame(0x21, &[1, 2]);
         b.extend(raw_frame(0x21 + 0x1f * 9, &[]));
@@ -455,7 +508,9 @@ pub fn generate(rng: &mut Rng, thorough: bool, which: &str) -> Vec<Case> {
     }
     if which == "unknown_uni" {
         // C13: unknown / GREASE unidirectional stream types with any content never close the connection
-        let ids: Vec<u64> = vec![1, 4, 5, 0x20, 0x22, 0x42, 0x53, 0x55, 0x4242, 1 << 30, (1 << 62) - 1, 0x21, 0x21 + 0x1f * 5];
+        let ids: Vec<u64> = vec![1, 4, 5, 0x20, 0x22, 0x42, 0x53, 0x55, 0x4242, 1 << 30, (1 << 62) - 1, 0x21, 0x21 + 0x1f * 5,
+                                 // 8-byte types whose low 32 bits look like a known type
+                                 0x1_0000_0000, 0x1_0000_0002, 0x1_0000_0003, 0x1_0000_0054, 0x3fff_ffff_0000_0054];
         for id in ids {
             let mut b = enc_varint(id);
             b.extend(raw_frame(4, &[]));
@@ -483,6 +538,34 @@ pub fn generate(rng: &mut Rng, thorough: bool, which: &str) -> Vec<Case> {
         for ty in [2u64, 3] {
             cs.push(Case::new(621, vec![vec![0, 1, 0, 0, 0], spec(0, 0, 0, 0, 0), b2a(&enc_varint(ty))], "critical-stream-finished"));
             cs.push(Case::new(621, vec![vec![0, 1, 0, 0, 0], spec(0, 0, 0, 1, 5), b2a(&enc_varint(ty))], "critical-stream-reset"));
+        }
+        return cs;
+    }
+    if which == "requests" {
+        // further session requests on an established connection (C09, C18, C12): at most that stream
+        // is refused; the live session, its streams and the connection go on
+        let full: Vec<(&str, &str)> = vec![(":method", "CONNECT"), (":scheme", "https"), (":protocol", "webtransport"), (":authority", "localhost"), (":path", "/second")];
+        let mut sets: Vec<(Vec<(&str, &str)>, &str)> = vec![(full.clone(), "second-connect-request")];
+        for drop in 0..5usize {
+            let mut v = full.clone();
+            v.remove(drop);
+            sets.push((v, "request-missing-field"));
+        }
+        for (i, val) in [(0usize, "GET"), (0, "connect"), (1, "http"), (2, "websocket"), (2, "WebTransport")] {
+            let mut v = full.clone();
+            v[i].1 = val;
+            sets.push((v, "request-wrong-value"));
+        }
+        for (fields, label) in sets {
+            let mut args = vec![vec![0, 1, 0, 1, 1]];
+            args.push(spec(1, 0, 0, 2, 0));
+            args.push(b2a(&headers_bytes(&fields)));
+            // the healthy streams come a moment later: whatever the request did has happened by then
+            args.push(spec(0, 0, 200, 0, 0));
+            args.push(b2a(&uni_wt(0, b"uni-after-request")));
+            args.push(spec(1, 0, 0, 0, 0));
+            args.push(b2a(&bi_wt(0, b"bi-after-request")));
+            cs.push(Case::new(621, args, label));
         }
         return cs;
     }
